@@ -202,7 +202,7 @@ func arithScope(c *Ctx, fn *ssa.Function) bool {
 		switch n := namedOf(recv.Type()); {
 		case n == nil:
 		default:
-			switch n.Obj().Name() {
+			switch objName(n.Obj()) {
 			case "Number", "YRange", "YangRange", "EnumType":
 				return true
 			}
